@@ -86,6 +86,7 @@ def _replay(item):
   from ai_edge_quantizer import quantizer, qtyping as Q
   from ai_edge_litert import interpreter as tfl
   mname, beh, seed, nsamples = item
+  zero_first = [False]
   mdl = MODELS[mname]
   nsub = len(mdl["subs"])
   # beh["sel"] runs over the operators of all subgraphs in order
@@ -118,6 +119,12 @@ def _replay(item):
       continue
     data.append({si: {"x%d" % i: (rng.normal(size=info["shapes"][si][t]) * (1.0 + 2.5 * k)).astype(np.float32) + np.float32(0.3 * k)
                       for i, t in enumerate(sub["gins"])} for si, sub in enumerate(mdl["subs"])})
+  # in a third of the behaviours the first sample is all zeros (a warm-up sample): the running statistics of the inputs are then
+  # exactly (0, 0) when the next sample is folded - a recorded range like any other
+  import zlib
+  if not mdl.get("int32") and zlib.crc32(json.dumps(beh, sort_keys=True).encode()) % 3 == 0:
+    data[0] = {si: {n: np.zeros_like(v) for n, v in d.items()} for si, d in data[0].items()}
+    zero_first[0] = True
   # true per-sample min/max from the harness's own interpreter run
   it = tfl.Interpreter(model_content=model, experimental_preserve_all_tensors=True,
                        experimental_op_resolver_type=tfl.OpResolverType.BUILTIN_WITHOUT_DEFAULT_DELEGATES)
